@@ -3,6 +3,7 @@ package main
 import (
 	"fmt"
 	"io"
+	"io/ioutil"
 	"net"
 	"os"
 	"strings"
@@ -116,6 +117,18 @@ var labServices = []labSvc{
 	{"ssh-simulator", "ssh-simulator", "tcp", 2222, ""},
 }
 
+var labScratchDir string
+
+func labScratch() string {
+	if labScratchDir == "" {
+		labScratchDir, _ = ioutil.TempDir("", "htverif-lab-")
+	}
+	return labScratchDir
+}
+
+// labToml overrides the configuration body of a lab service
+var labToml = map[string]string{}
+
 type svcLab struct {
 	hc   *server.Honeytrap
 	cap  *evCap
@@ -139,7 +152,14 @@ func newSvcLab(names ...string) (*svcLab, error) {
 			continue
 		}
 		lab.byNm[s.name] = s
-		fmt.Fprintf(&b, "[service.%s]\ntype = %s\n%s\n", s.name, q(s.typ), s.toml)
+		body := s.toml
+		if o, ok := labToml[s.name]; ok {
+			body = o
+		} else if s.typ == "ftp" {
+			// keep the ftp filesystem out of the directory of the executable
+			body = "fs_base = " + q(labScratch()) + "\n"
+		}
+		fmt.Fprintf(&b, "[service.%s]\ntype = %s\n%s\n", s.name, q(s.typ), body)
 		fmt.Fprintf(&b, "[[port]]\nport = %s\nservices = [%s]\n", q(fmt.Sprintf("%s/%d", s.proto, s.port)), q(s.name))
 	}
 	b.WriteString("[channel.cap]\ntype = \"verif-evs\"\nname = \"cap\"\n[[filter]]\nchannel = [\"cap\"]\n")
